@@ -517,6 +517,9 @@ func (g *pathGen) join(t toks) []byte {
 			a, _ := utf8.DecodeLastRuneInString(prev)
 			b, _ := utf8.DecodeRuneInString(s)
 			need := (wordy(a) && wordy(b)) || fusible(a, b)
+			if strings.Contains(prev, "\\") && !strings.HasSuffix(prev, "\"") && wordy(b) {
+				need = true // an identifier that ends in an escape (`las\u{74}`) continues into a following word
+			}
 			if need || g.chance(0.3) {
 				sb.WriteString(separators[g.r.Intn(len(separators))])
 			}
